@@ -138,9 +138,12 @@ package node
 
 // ---- callees of processMessage (thin contracts: what they may touch; none of them has a ghost effect)
 //@ import types "github.com/lidofinance/dc4bc/client/types"
+// decoding a message into a request never faults and touches nothing but its fresh result; whatever the bytes
+// are, the caller gets a value (possibly an error value carried as the request, which every action rejects)
 //@ func github.com/lidofinance/dc4bc/client/types.FSMRequestFromMessage
-//@   assumed
+//@   safety C18
 //@   pure
+//@   ensures[C18.request.value] result1 == nil ==> result0 != nil
 //@ func github.com/lidofinance/dc4bc/client/types.NewOperation
 //@   assumed
 //@   pure
